@@ -28,11 +28,11 @@ MANYROWS = [
 ]
 
 
-def build(rows_spec, name="s"):
+def build(rows_spec, name="s", frag_name=None):
     rows = []
     for i, (kind, ln, strand) in enumerate(rows_spec):
         if kind == "F":
-            rows.append(Fragment(f"c{i}", 5, 4 + ln, strand))
+            rows.append(Fragment(frag_name or f"c{i}", 5, 4 + ln, strand))
         else:
             rows.append(Gap(ln, "scaffold" if ln == 1 else "contig"))
     return Scaffold(name, rows)
@@ -90,13 +90,14 @@ class C12(Check):
             out += [("pre3", i, j, l, k) for i in range(5) for j in range(5) for l in range(5)]
         return out
 
-    def check_scaffold(self, spec, ctx, two=False, orders=("asc", "desc", "asc-after-refused-add", "asc-after-other-assembly", "asc-added-after-first-lookup")):
+    def check_scaffold(self, spec, ctx, two=False, orders=("asc", "desc", "asc-after-refused-add", "asc-after-other-assembly", "asc-added-after-first-lookup", "asc-fragments-named-after-scaffold")):
         """
         every query on ONE IndexedAssembly object per order (ascending and descending), so a lookup
         that depends on earlier lookups on the same object shows up as well
         """
         for order in orders:
-            scffld = build(spec)
+            # (one order with every fragment named after the scaffold itself: pieces of a sequence that kept its name)
+            scffld = build(spec, frag_name="s" if order == "asc-fragments-named-after-scaffold" else None)
             scaffolds = [scffld]
             if two:
                 scaffolds = [build([ALPHA[0], ALPHA[4], ALPHA[1]], name="other"), scffld]
@@ -258,4 +259,4 @@ class C12(Check):
 
 CHECK = C12()
 # scope added in later rounds, kept in the evidence text
-CHECK.rule += ' Huge family: rows with coordinates around 2^32. A third query order after add_scaffold() was offered (and refused) a different scaffold with the same name; a fifth on a scaffold added after the assembly answered its first lookup; a fourth after other IndexedAssembly objects with same-named scaffolds of other lengths were built. Five scaffolds of 19-31 rows, every query.'
+CHECK.rule += ' Huge family: rows with coordinates around 2^32. A third query order after add_scaffold() was offered (and refused) a different scaffold with the same name; a sixth with every fragment named after its scaffold; a fifth on a scaffold added after the assembly answered its first lookup; a fourth after other IndexedAssembly objects with same-named scaffolds of other lengths were built. Five scaffolds of 19-31 rows, every query.'
